@@ -10,3 +10,7 @@ type Check struct {
 }
 
 var Registry = map[string]*Check{}
+
+// Workers are internal sub-commands of vcheck ("vcheck __name args..."): a check runs a dangerous part of its work
+// in a child process of the same executable (memory limit, kill on timeout) and reads its results from stdout.
+var Workers = map[string]func(args []string) int{}
